@@ -141,7 +141,22 @@ func (g *c15Gen) action() bool {
 	var stmts []*ast.Node
 	label := ""
 	res := func(e *ast.Node) { stmts = append(stmts, ast.Print(ast.Str("R"), e)) }
-	switch k := g.n(0, 27, "op"); {
+	switch k := g.n(0, 28, "op"); {
+	case k == 28:
+		// the receiver is an element of an array that a call nested in the argument changes:
+		// the method acts on the array that the receiver named when the call began
+		mm := func() *ast.Node { return ast.Id("mm") }
+		stmts = append(stmts, ast.ExprS(ast.Set(mm(), ast.Arr(ast.Arr(ast.Num("1")), ast.Arr(ast.Num("2"), ast.Num("2")), ast.Arr(ast.Num("3"))))), ast.ExprS(ast.Set(ast.Id("keep"), ast.Idx(mm(), ast.Num("0")))))
+		switch g.n(0, 2, "recvform") {
+		case 0:
+			stmts = append(stmts, ast.ExprS(ast.Method(ast.Idx(mm(), ast.Num("0")), "push", ast.Method(ast.Method(mm(), "popfirst"), "length"))))
+		case 1:
+			stmts = append(stmts, ast.ExprS(ast.Method(ast.Idx(mm(), ast.Un("-", ast.Num("1"))), "push", ast.Method(ast.Method(mm(), "pop"), "length"))))
+		default:
+			stmts = append(stmts, ast.Print(ast.Str("R"), ast.Method(ast.Idx(mm(), ast.Num("1")), "contains", ast.Method(ast.Method(mm(), "popfirst"), "length"))))
+		}
+		stmts = append(stmts, ast.Print(ast.Str("MM"), mm(), ast.Id("keep")))
+		label = "receiver-is-an-element-the-argument-moves"
 	case k == 27:
 		// the same array stored twice in another one (pushed, and written to an index): it is
 		// shown twice, in full - shared is not circular
